@@ -314,12 +314,21 @@ def slice_bounds(sl, n):
     return lo, hi
 
 
+def _strip_ellipsis(ix):
+    if isinstance(ix, tuple) and ix and ix[-1] is Ellipsis:
+        ix = ix[:-1]
+        if len(ix) == 1:
+            ix = ix[0]
+    return ix
+
+
 @hook("getitem")
 def _getitem(i, a, ix, node):
     if not isinstance(a, Arr):
         return NotImplemented
     from ..engine import SliceV
     check_live(a, node)
+    ix = _strip_ellipsis(ix)
     if a.ndim == 1:
         if isinstance(ix, SliceV):
             lo, hi = slice_bounds(ix, a.shape[0])
@@ -411,6 +420,20 @@ def _setitem(i, a, ix, val, node):
     if not isinstance(a, Arr):
         return NotImplemented
     from ..engine import SliceV
+    ix = _strip_ellipsis(ix)
+    if a.ndim == 2 and isinstance(ix, Arr) and ix.dtype == "bool" and not isinstance(val, Arr):
+        # rows selected by a mask set to a scalar
+        n = to_z3(a.shape[0], Int)
+        i.safe("index", to_z3(ix.shape[0], Int) == n, node)
+        k, c = z3.Int("k!mr"), z3.Int("c!mr")
+        new = i.ctx.fresh("upd", a.data.sort())
+        old = a.data
+        v = to_z3(val, a.elem_sort)
+        i.ctx.assume(z3.ForAll([k, c], z3.Implies(z3.And(k >= 0, k < n, c >= 0, c < to_z3(a.shape[1], Int)),
+                                                  z3.Select(z3.Select(new, k), c) == z3.If(z3.Select(ix.data, k), v, z3.Select(z3.Select(old, k), c))),
+                               patterns=[z3.Select(z3.Select(new, k), c)]))
+        write(i, a, new, node)
+        return True
     if a.ndim == 1:
         if isinstance(ix, SliceV):
             lo, hi = slice_bounds(ix, a.shape[0])
